@@ -91,6 +91,17 @@ let handle line =
                 c_exts = exts_of exts; c_noiter = (n = "1") } in
       let (cs, r) = if op = "wasm" then wasm_output c (str_of_hex input) else output_md c (str_of_hex input) in
       res_str r ^ " " ^ chunks_str cs
+  | ["fout"; k; b; _fl; e; d; n; ld; li; md; mi; exts; input] ->
+      let c = { c_bf = bf_of ld li md mi; c_enc = enc_of e; c_dry = (d = "1");
+                c_exts = exts_of exts; c_noiter = (n = "1") } in
+      let opt s = if s = "-" then None else Some (nat_of_int (int_of_string s)) in
+      let (acc, r) = output_faulty c (str_of_hex input) (opt k) (opt b) in
+      res_str r ^ " " ^ hex_of_str acc
+  | ["frout"; b; _fl; e; d; ld; li; md; mi; items] ->
+      let c = { c_bf = bf_of ld li md mi; c_enc = enc_of e; c_dry = (d = "1"); c_exts = []; c_noiter = false } in
+      (match forest_of_items (items_of items) [] with
+       | [t] -> let (acc, r) = output_root_faulty c t (nat_of_int (int_of_string b)) in res_str r ^ " " ^ hex_of_str acc
+       | _ -> "badcase")
   | ["walk"; ld; li; md; mi; fail; input] ->
       let c = { c_bf = bf_of ld li md mi; c_enc = EncDefault; c_dry = false; c_exts = []; c_noiter = false } in
       let k = if fail = "-" then -1 else int_of_string fail in
